@@ -301,7 +301,7 @@ def branchOf (s : St) (name : String) (k : Nat) (co : COp) : String :=
   | "create" =>
     (match r.2 with
       | .ok => if inStore r.1.mem k then "mem" else "disk-fallback"
-      | o => cls o) ++ (if inFlight s.g k then "+inflight" else "")
+      | o => cls o) ++ (match co with | .create _ 0 _ => "+empty" | _ => "") ++ (if inFlight s.g k then "+inflight" else "")
   | "has" => "".intercalate (outToks r.2)
   | "list" => match co with | .list .any => "any" | .list .complete => "c" | _ => "i"
   | "stat" => cls r.2
